@@ -99,7 +99,13 @@ func (rn *runner) runWriter(e *RealEnd, tc *TaskCfg, t *Task) {
 			pm := rn.scn.Prepared[op.PM]
 			r.MsgType, r.Data, r.Note = pm.MT, rn.pmSrc[op.PM], compNow(pm.MT)
 			r.N = op.PM
-			err := c.WritePreparedMessage(rn.pms[op.PM])
+			r.PayLen = len(rn.pmSrc[op.PM])
+			var err error
+			if rn.pms[op.PM] == nil {
+				err = errRefusedAtCreation
+			} else {
+				err = c.WritePreparedMessage(rn.pms[op.PM])
+			}
 			t.End(r, err)
 		case "ctl":
 			data := op.Pay.Bytes()
@@ -211,6 +217,7 @@ func (rn *runner) runWriter(e *RealEnd, tc *TaskCfg, t *Task) {
 }
 
 var (
+	errRefusedAtCreation = &simError{msg: "NewPreparedMessage refused the message"}
 	errWriteFailed = &simError{msg: "a Write on the message writer failed"}
 	errAbandoned   = &simError{msg: "writer abandoned"}
 )
